@@ -45,7 +45,7 @@ def gen_config(rng, variants=("Simple", "Ordinary", "Universal", "ExtDrift", "De
     if fdim > 3 and not latlon:
         temporal = False
         fdim = dim
-    n = int(rng.randint(2, max_n))
+    n = int(rng.randint(2, max_n + (6 if variant == "Universal" else 0)))
     m = int(rng.randint(1, 12))
     if latlon:
         cp = np.vstack([rng.uniform(-80, 80, n), rng.uniform(-170, 170, n)] + ([rng.uniform(0, 4, n)] if temporal else []))
@@ -67,11 +67,10 @@ def gen_config(rng, variants=("Simple", "Ordinary", "Universal", "ExtDrift", "De
     cfg["drift"] = None
     cfg["ext"] = None
     if variant == "Universal":
-        cfg["drift"] = rng.choice(["linear", 0, 1]) if n > fdim + 2 else 0
-        if cfg["drift"] not in ("linear",):
-            cfg["drift"] = int(cfg["drift"])
-        else:
-            cfg["drift"] = "linear"
+        ch = str(rng.choice(["linear", "linear", "1", "0", "quadratic"])) if n > fdim + 2 else "0"
+        if ch == "quadratic" and n <= (fdim + 1) * (fdim + 2) // 2 + 1:
+            ch = "linear"
+        cfg["drift"] = ch if ch in ("linear", "quadratic") else int(ch)
     if variant == "ExtDrift":
         k = int(rng.randint(1, 3)) if n > 3 else 1
         cfg["ext"] = (rng.randn(k, n), rng.randn(k, m))
